@@ -230,6 +230,13 @@ pub fn load_effective_config(workspace_root: &Path) -> LoadedConfig {
     }
 
     let config = serde_json::from_value::<RipConfig>(merged.clone()).unwrap_or_default();
+    // variables the configuration names as key sources are credentials: tool subprocesses do not inherit them
+    rip_tools::register_secret_env_names(config.provider.values().filter_map(|provider| {
+        match provider.api_key.as_ref() {
+            Some(ApiKeySource::Env { env }) => Some(env.clone()),
+            _ => None,
+        }
+    }));
     LoadedConfig {
         config,
         sources: reports,
